@@ -57,6 +57,11 @@ ASSUMPTIONS = [
     "redirect URIs are simple https URIs compared as strings (URI matching is C06's subject)",
     "an encrypted wrapper (JWE) is ideal: it opens iff it is addressed to a key the provider holds and is intact (Model/Jar.v jwe_state); "
     "the key-management / content-encryption algorithms do not matter (both RSA-OAEP and ECDH-ES are driven)",
+    "client authentication by request_param (Model/Jar.v request_param): the method answers an identity only for a JWS whose signature "
+    "verified under a key of its iss - bare, or inside a wrapper whose header says cty JWT; on claims nobody signed inside a wrapper it "
+    "gives up and the next configured method decides, as on an alg=none JWS (library repair f092826; before it the iss of such claims was "
+    "taken as the authenticated client and the model transcribed that); a wrapper without cty JWT around a JWS is read as raw text and "
+    "given up on too, so there the wrapper carries less authority than the bare JWS (the exception left in C16_wrapper_by_value)",
     "jti/exp/nbf claims, nested request/request_uri claims are outside the modelled fragment",
     "dynamic registration (Model/Jar.v register): only request_object_signing_alg is transcribed; whether the rest of a registration "
     "request is acceptable is C19's subject and enters as the flag rq_ok; the client_id the provider assigns is new (fixed by a "
@@ -973,7 +978,11 @@ def gen_wrapped(R, quick):
                         conf = {"reg": {"client_1": reg}, "enc_reg": {"client_1": er}, "prov_enc": pe}
                         R.run_case("jwe-enc", (oidc, meth, True, 3600), conf, docs, ops,
                                    note="%s/%s enc registered %r provider %r" % (transport, name, er, pe))
-    # (4) who the request is attributed to when RequestParam reads claims nobody signed: outer client_1, claims of client_2
+    # (4) who the request is attributed to when the wrapper holds claims nobody signed that name another client: outer
+    #     client_1, claims of client_2, with / without RequestParam among the methods, with / without cty.  Since f092826
+    #     RequestParam gives up on such claims (no jws_header: nothing was authenticated) and the next configured method
+    #     decides; before, it took their iss as the client.  The model says RpContinue on these rows (Model/Jar.v
+    #     request_param, C16_request_param_unsigned), so a tree that identifies a client from them is a mismatch here.
     for oidc in (False, True):
         for meth in ("all", "rp_pub", "pub"):
             for transport in ("value", "par"):
